@@ -52,7 +52,9 @@ MANIFEST = {
                  "expressions) + translator + differential correspondence on all store paths with a Python/C oracle",
 }
 
-RULE = ("per type: the boundary sweep {+-2^k + d : k = 0..70, d = -3..3} plus random 1..200-bit ints of both signs; "
+RULE = ("per type: the boundary sweep {+-2^k + d : k = 0..70, d = -3..3} plus random 1..200-bit ints of both signs, plus "
+        "ints beyond the int->str digit limit (+-10^4300, 10^4300-1, +-10^6000, +-2^20000, two random 14400..30000-bit "
+        "ones; written in hex everywhere); "
         "every value goes through every store path with a random previous content of the target; the oracle runs on "
         "all of them, the Lean driver on the values near the type's own bounds / the 64-bit conversion limits plus a "
         "random sample of the rest.  A case is non-trivial when the value is within 3 of one of the type's bounds or "
@@ -330,7 +332,7 @@ def check_oracle(ctx, te, v, pat, obs):
     """The property's own statement, evaluated without the model."""
     ok = te.in_range(v)
     want = te.obj_bytes(v) if ok else None
-    case = {"type": te.name, "size": te.size, "kind": te.kind, "value": v, "before": pat.hex()}
+    case = {"type": te.name, "size": te.size, "kind": te.kind, "value": cval(v), "before": pat.hex()}
     for path in A_PATHS + ("arg-api",):
         if path not in obs:
             continue
@@ -372,6 +374,30 @@ def check_oracle(ctx, te, v, pat, obs):
 
 # ---------------------------------------------------------------- values
 
+# Python ints beyond sys.get_int_max_str_digits() (4300 decimal digits): str()/repr()/"%d" of them raise
+# ValueError, so this harness only ever writes them in hex (no digit limit for power-of-two bases).
+HUGE = [10 ** 4300, -(10 ** 4300), 10 ** 4300 - 1, 10 ** 6000, -(10 ** 6000), 2 ** 20000, -(2 ** 20000)]
+
+
+def vtxt(v):
+    """a value for the line protocol: decimal when short, else hex"""
+    if v.bit_length() <= 512:
+        return "%d" % v
+    return "-0x%x" % -v if v < 0 else "0x%x" % v
+
+
+def cval(v):
+    """a value for a JSON-able case dict"""
+    return v if v.bit_length() <= 512 else vtxt(v)
+
+
+def huge_values(rng):
+    out = list(HUGE)
+    for sign in (1, -1):
+        bits = rng.randint(14400, 30000)        # 2**14399 > 10**4300
+        out.append(sign * (rng.getrandbits(bits) | (1 << (bits - 1))))
+    return out
+
 def sweep():
     s = set()
     for k in range(71):
@@ -408,7 +434,7 @@ def translators(ctx):
 
 
 def compare_model(ctx, te, v, pat, obs, store_ans, cb_ans):
-    case = {"type": te.name, "size": te.size, "kind": te.kind, "value": v, "before": pat.hex()}
+    case = {"type": te.name, "size": te.size, "kind": te.kind, "value": cval(v), "before": pat.hex()}
     # "ok A=<mem>,<res>,<read> B=<bytes|Err>"
     try:
         a_part, b_part = store_ans[3:].split(" ")
@@ -448,6 +474,7 @@ def explore(ctx, with_model, n_model_sample, n_random, full_sweep=True):
     for te in w.types:
         vals = list(sw) if full_sweep else [v for v in sw if near(te, v) or rng.random() < 0.15]
         vals += randoms(rng, n_random)
+        vals += huge_values(rng)        # every tier, every seed: beyond the int -> str digit limit
         focus = [v for v in vals if nontrivial(te, v) or abs(v) <= 2]
         rest = [v for v in vals if not (nontrivial(te, v) or abs(v) <= 2)]
         chosen = set(focus)
@@ -455,18 +482,19 @@ def explore(ctx, with_model, n_model_sample, n_random, full_sweep=True):
         for v in vals:
             pat = bytes(rng.getrandbits(8) for _ in range(te.size))
             obs = run_paths(te, v, pat)
-            case = {"type": te.name, "value": v, "before": pat.hex()}
+            case = {"type": te.name, "value": cval(v), "before": pat.hex()}
             ctx.case((te.name, v) if nontrivial(te, v) else None, sample=case if nontrivial(te, v) else None)
             ctx.count("value:" + ("in-range" if te.in_range(v) else
+                                  ">4300-digits" if abs(v) >= HUGE[0] else
                                   ">64-bit" if v.bit_length() > 64 else "out-of-range"))
             check_oracle(ctx, te, v, pat, obs)
             if with_model and v in chosen:
                 i = len(lines)
-                lines.append("store %d %s %d %s" % (te.size, te.kind, v, pat.hex()))
+                lines.append("store %d %s %s %s" % (te.size, te.kind, vtxt(v), pat.hex()))
                 res0 = "%016x" % rng.getrandbits(64)
-                lines.append("cb %d %s %d %d 1 %s" % (te.size, te.kind, v, te.errval, res0))
-                lines.append("cb %d %s %d none 1 %s" % (te.size, te.kind, v, res0))
-                lines.append("cb %d %s %d %d 0 %s" % (te.size, te.kind, v, te.errval, res0))
+                lines.append("cb %d %s %s %d 1 %s" % (te.size, te.kind, vtxt(v), te.errval, res0))
+                lines.append("cb %d %s %s none 1 %s" % (te.size, te.kind, vtxt(v), res0))
+                lines.append("cb %d %s %s %d 0 %s" % (te.size, te.kind, vtxt(v), te.errval, res0))
                 pending.append((te, v, pat, obs, i))
     common.log("C03: %d (type, value) pairs explored, %.1f s since start" % (ctx.evaluations, time.time() - ctx.t0))
     if with_model and lines:
@@ -511,7 +539,7 @@ def replay(ctx, obj):
     case = obj["case"]
     w = build(ctx)
     te = [t for t in w.types if t.name == case["type"]][0]
-    v = int(case["value"])
+    v = case["value"] if isinstance(case["value"], int) else int(case["value"], 0)
     pat = bytes.fromhex(case.get("before") or "00" * te.size)
     obs = run_paths(te, v, pat)
     n0 = len(ctx.failures)
